@@ -12,6 +12,8 @@ from vf import boot, common, r1cs
 
 
 FEATURE_MIXES = [
+    ("int", "bool", "assert_", "guard", "top"),
+    ("int", "bool", "fxp", "top"),
     ("int", "bool", "assert_", "guard"),
     ("int", "bool", "fxp", "assert_", "guard"),
     ("int", "bool", "fxp", "assert_", "guard", "array"),
